@@ -143,13 +143,21 @@ def threaded_records(jp, rng, n_threads, rounds, chk):
     return recs
 
 
-def hammer_records(jp, rng, n_threads, iterations):
+def hammer_records(jp, rng, n_threads, iterations, light=False):
     """All threads evaluate the SAME compiled query objects at the same time, each on a wide document of its own:
-    whatever a compiled query keeps between calls (scratch buffers, cursors) is shared by the threads."""
+    whatever a compiled query keeps between calls (scratch buffers, cursors) is shared by the threads.
+    light: tiny arrays of a different LENGTH per thread under index / slice selectors, many more iterations - whatever a
+    selector remembers about 'the array it saw last' (normalised indices, ranges) is shared by the threads, and the window
+    between two dependent stores is a couple of bytecodes wide."""
     env = jp.JSONPathEnvironment()
-    qs = ["$..*", "$..a", "$..[?@.a]", "$[?count(@..*) > 3]", "$..[?count(@.*) > 1 && @.a]", "$[*]..[0]", "$..[?@ == $.k]"]
+    if light:
+        qs = ["$[1:]", "$[-2:]", "$[::2]", "$[-1]", "$[::-1]", "$[0, -1]", "$[:-1]", "$[-3::-1]"]
+        docs = [list(range(3 + 2 * t)) for t in range(n_threads)]
+    else:
+        qs = ["$..*", "$..a", "$..[?@.a]", "$[?count(@..*) > 3]", "$..[?count(@.*) > 1 && @.a]", "$[*]..[0]", "$..[?@ == $.k]",
+              "$.w[1:].b.c", "$.w[-3:].b.c", "$.w[*].a[::-1]", "$.w[-1].a[-1]"]
+        docs = [{"k": t, "w": [{"a": [t, i, {"a": i, "b": [t]}], "b": {"a": [i, t], "c": t}} for i in range(10 + t)]} for t in range(n_threads)]
     shared = [env.compile(q) for q in qs]
-    docs = [{"k": t, "w": [{"a": [t, i, {"a": i, "b": [t]}], "b": {"a": [i, t], "c": t}} for i in range(10 + t)]} for t in range(n_threads)]
     results = [[] for _ in range(n_threads)]
     barrier = threading.Barrier(n_threads)
 
@@ -185,6 +193,103 @@ def hammer_records(jp, rng, n_threads, iterations):
             recs.append({"op": "find", "q": core.enc_text(qs[k]), "doc": edocs[t], "out": out, "stage": "find", "jp": out == "ok", "cls": cls,
                          "locs": locs, "threads": n_threads})
     return recs
+
+
+def preempt_records(jp, rng, runs_per_scenario):
+    """Two (or three) threads under the line-granularity scheduler of harness/sched.py: only one runs at a time and the
+    token changes hands at chosen 'line' events INSIDE the package - also where CPython itself never switches (between two
+    consecutive stores).  Scenarios: one shared compiled query evaluated by every thread on a document of its own; one
+    shared environment on which every thread compiles a text of its own and evaluates it.  Every thread's result is a find
+    record (the specification computes what a solitary run gives); after each schedule one more solitary evaluation per
+    thread checks that nothing inconsistent was left behind."""
+    import os  # noqa: PLC0415
+
+    from .. import sched  # noqa: PLC0415
+
+    pkg = os.path.dirname(os.path.abspath(jp.__file__))
+    deep = "$[?" + "(" * 60 + "@.a" + ")" * 60 + "]"
+    scenarios = [
+        ("shared", "$[1:]", [list(range(5)), list(range(3))]),
+        ("shared", "$[-2:]", [list(range(3)), list(range(6)), list(range(4))]),
+        ("shared", "$[::-1]", [[1, 2, 3], [4, 5]]),
+        ("shared", "$[-1]", [[1, 2, 3], [4, 5]]),
+        ("shared", "$[0, -1, 1:]", [[1, 2, 3, 4], [5, 6]]),
+        ("shared", "$..[-1]", [[[1, 2], [3]], [[4], [5, 6, 7]]]),
+        ("shared", "$..a", [{"a": {"a": 1}, "b": [{"a": 2}]}, [{"a": 3}, {"b": {"a": 4}}]]),
+        ("shared", "$[?@.k == $.want].k", None),
+        ("shared", "$[?count(@.*) > $.n]", None),
+        ("shared", "$[?match(@.s, $.p)]", None),
+        ("shared", "$.*", [{"a": 1, "b": 2}, {"c": 3}]),
+        ("shared", "$[?@[?@ > $.n]]", None),
+        ("env", ["$[?@.a == 1]", "$[?@.b && (@.a || !@.c)]"], [[{"a": 1}, {"a": 2}], [{"b": 1, "a": 0}, {"b": 0}]]),
+        ("env", [deep, deep], [[{"a": 1}, {"b": 1}], [{"a": 0}, 5]]),
+        ("env", ["$[?length(@.a) == 2]", "$[?count(@.a[*]) == 2]"], [[{"a": "xy"}, {"a": [1, 2]}], [{"a": [1, 2]}, {"a": [1]}]]),
+        ("env", ["$['\\u0041', \"b\"]", "$['c\\n', 'd']"], [{"A": 1, "b": 2}, {"c\n": 3, "d": 4}]),
+    ]
+    special = {
+        "$[?@.k == $.want].k": [{"want": 1, "x": {"k": 1}, "y": {"k": 2}}, {"want": 2, "x": {"k": 1}, "y": {"k": 2}}],
+        "$[?count(@.*) > $.n]": [{"n": 1, "x": [1, 2], "y": [1]}, {"n": 0, "x": [1, 2], "y": [1]}],
+        "$[?match(@.s, $.p)]": [{"p": "a.", "x": {"s": "ab"}, "y": {"s": "cb"}}, {"p": "c.", "x": {"s": "ab"}, "y": {"s": "cb"}}],
+        "$[?@[?@ > $.n]]": [{"n": 1, "x": [1, 2], "y": [1]}, {"n": 0, "x": [0, 1], "y": [0]}],
+    }
+    recs, seen = [], set()
+    stuck = 0
+    n_sched = 0
+
+    def add(q, doc, outcome, tag):
+        kind, val = outcome if outcome is not None else ("raise", RuntimeError("thread did not finish"))
+        if kind == "ok":
+            out, locs, cls = "ok", val, ""
+        else:
+            out, locs, cls = "raise", [], type(val).__name__
+        key = (q, json.dumps(doc, sort_keys=True, default=str), out, json.dumps(locs), cls)
+        if key in seen:
+            return
+        seen.add(key)
+        recs.append({"op": "find", "q": core.enc_text(q), "doc": core.enc_value(doc), "out": out, "stage": "find",
+                     "jp": out == "ok" or isinstance(val, jp.JSONPathError), "cls": cls, "locs": locs, "threads": tag})
+
+    for kind, q, docs in scenarios:
+        docs = docs if docs is not None else special[q]
+        n = len(docs)
+
+        def make():
+            if kind == "shared":
+                c = jp.JSONPathEnvironment().compile(q)
+                bodies = [(lambda d=d: [core.enc_loc(x.location) for x in c.find(d)]) for d in docs]
+                after = [(lambda d=d: [core.enc_loc(x.location) for x in c.find(d)]) for d in docs]
+            else:
+                env = jp.JSONPathEnvironment()
+                bodies = [(lambda t=t, d=d: [core.enc_loc(x.location) for x in env.compile(t).find(d)]) for t, d in zip(q, docs)]
+                after = [(lambda t=t, d=d: [core.enc_loc(x.location) for x in env.find(t, d)]) for t, d in zip(q, docs)]
+            return bodies, after
+
+        total = sched.count_steps(make()[0], pkg)
+        if total < 4:
+            raise core.MachineryError(f"the line scheduler saw only {total} line events for {q!r}: tracing is not in effect")
+        texts = [q] * n if kind == "shared" else q
+        # every single pre-emption point when that is affordable, else a sample; plus schedules with two and three of them
+        singles = list(range(1, total + 1))
+        if len(singles) > runs_per_scenario:
+            singles = sorted(rng.sample(singles, runs_per_scenario))
+        plans = [{k} for k in singles] + [set(rng.sample(range(1, total + 1), min(total, rng.choice([2, 3])))) for _ in range(runs_per_scenario // 2)]
+        for plan in plans:
+            bodies, after = make()
+            s = sched.LineScheduler(bodies, plan, pkg)
+            results = s.run(timeout=30.0)
+            n_sched += 1
+            if s.stuck:
+                stuck += 1
+                if stuck > 3:
+                    break
+            for t in range(n):
+                add(texts[t], docs[t], results[t], f"preempt{n}")
+            for t in range(n):
+                try:
+                    add(texts[t], docs[t], ("ok", after[t]()), f"preempt{n}-after")
+                except Exception as err:  # noqa: BLE001
+                    add(texts[t], docs[t], ("raise", err), f"preempt{n}-after")
+    return recs, n_sched, stuck
 
 
 def fresh_env_records(jp, rng, n_threads, rounds):
@@ -375,7 +480,13 @@ def run(chk: core.Check, tier: str, seed: int) -> None:
     recs += handover_records(jp, rng, 30 if tier == "quick" else 600)
     for nt in ((4, 8) if tier == "quick" else (2, 4, 8, 16)):
         recs += hammer_records(jp, rng, nt, 60 if tier == "quick" else 600)
+        recs += hammer_records(jp, rng, nt, 6000 if tier == "quick" else 60000, light=True)
         recs += fresh_env_records(jp, rng, nt, 150 if tier == "quick" else 3000)
+    precs, n_sched, stuck = preempt_records(jp, rng, 40 if tier == "quick" else 100000)
+    recs += precs
+    chk.notes["preemption_schedules"] = n_sched
+    if stuck:
+        chk.violation({"clause": "a thread did not finish under a pre-emptive schedule"}, {"schedules_stuck": stuck})
     for nt in ((4, 8) if tier == "quick" else (2, 4, 8, 16)):
         srecs, errors = compile_stress(jp, rng, nt, 4.0 if tier == "quick" else 40.0)
         recs += srecs
